@@ -85,6 +85,9 @@ type c17Key struct {
 type c17Case struct {
 	Keys   []c17Key `json:"keys"`
 	Filter []uint32 `json:"filter,omitempty"` // -sflow-type-filter a,b,c
+	// FilterSplit in 1..len(Filter)-1: the list is given by two occurrences of the flag, the first FilterSplit entries
+	// in one and the rest in the other: every type the operator lists on the command line is in the filter
+	FilterSplit int `json:"filter_split,omitempty"`
 	EqForm bool     `json:"eq_form"`          // -k=v instead of -k v for non-boolean flags
 	// ConfigPos: where "-config <file>" stands among the command-line settings (0 = first, n = after n of them)
 	ConfigPos int `json:"config_pos,omitempty"`
@@ -102,7 +105,7 @@ type c17Case struct {
 }
 
 const c17Rule = "case = 1..8 settings from the 45-entry table (yaml key, flag name, VFLOW_* variable, kind, default; transcribed from docs/config.md and NewOptions), each given by a random non-empty subset of " +
-	"{environment, configuration file (-config <file>, placed before, between or after the other flags; the path plain, a symbolic link to the file, through a linked directory, with . and .. components, or relative to the working directory as a bare file name or ./name), command line} with distinct valid values (ports/sizes/worker counts in range, booleans, strings incl. ones needing YAML quoting; a source may also pin the built-in default value), optionally -sflow-type-filter a,b,c; " +
+	"{environment, configuration file (-config <file>, placed before, between or after the other flags; the path plain, a symbolic link to the file, through a linked directory, with . and .. components, or relative to the working directory as a bare file name or ./name), command line} with distinct valid values (ports/sizes/worker counts in range, booleans, strings incl. ones needing YAML quoting; a source may also pin the built-in default value), optionally -sflow-type-filter a,b,c (in a third of those cases as two occurrences of the flag: every listed type is in the effective filter); " +
 	"executed by the real option loading (environment, YAML file, flags) in the package-main driver; oracle = effective value is the command line's, else the file's, else the environment's, else the default; untouched settings keep their defaults; " +
 	"the filter option parses to [a,b,c]; non-trivial = some setting has >= 2 sources; distinct by hash"
 
@@ -160,6 +163,9 @@ func genC17(t *rapid.T) c17Case {
 	}
 	if rapid.IntRange(0, 3).Draw(t, "withfilter") == 0 {
 		c.Filter = rapid.SliceOfN(rapid.OneOf(rapid.Uint32Range(0, 5), rapid.Uint32()), 1, 12).Draw(t, "filter")
+		if len(c.Filter) >= 2 && rapid.IntRange(0, 2).Draw(t, "splitfilter") == 0 {
+			c.FilterSplit = rapid.IntRange(1, len(c.Filter)-1).Draw(t, "filtersplit")
+		}
 	}
 	if rapid.IntRange(0, 3).Draw(t, "withbadfile") == 0 {
 		for _, idx := range perm[n:] {
@@ -287,7 +293,12 @@ func runC17(c *c17Case) (v verdict, sig string, err error) {
 		for _, f := range c.Filter {
 			parts = append(parts, strconv.FormatUint(uint64(f), 10))
 		}
-		req.Args = append(req.Args, "-sflow-type-filter", strings.Join(parts, ","))
+		if c.FilterSplit > 0 && c.FilterSplit < len(parts) {
+			req.Args = append(req.Args, "-sflow-type-filter", strings.Join(parts[:c.FilterSplit], ","), "-sflow-type-filter", strings.Join(parts[c.FilterSplit:], ","))
+			v.label(true, "type-filter-given-by-two-occurrences-of-the-flag")
+		} else {
+			req.Args = append(req.Args, "-sflow-type-filter", strings.Join(parts, ","))
+		}
 		v.label(true, "type-filter-option")
 	}
 	if len(cfg) > 0 {
@@ -382,6 +393,24 @@ func runC17(c *c17Case) (v verdict, sig string, err error) {
 	gotF, _ := resp.Options["SFlowTypeFilter"].([]interface{})
 	if _, envFilter := c.ExtraEnv["VFLOW_SFLOW_TYPE_FILTER"]; envFilter && len(c.Filter) == 0 {
 		// the property says nothing about list-valued settings in the environment: only the command line form is checked
+		return v, "", nil
+	}
+	if c.FilterSplit > 0 && c.FilterSplit < len(c.Filter) {
+		// two occurrences: as sets (how a collector orders or de-duplicates the entries is its own business)
+		have := map[uint32]bool{}
+		for _, g := range gotF {
+			if x, ok := g.(float64); ok {
+				have[uint32(x)] = true
+			}
+		}
+		for _, f := range c.Filter {
+			if !have[f] {
+				return v, "filter", fmt.Errorf("-sflow-type-filter %v -sflow-type-filter %v: effective filter %v lacks %d", c.Filter[:c.FilterSplit], c.Filter[c.FilterSplit:], gotF, f)
+			}
+		}
+		if len(have) > len(c.Filter) {
+			return v, "filter", fmt.Errorf("-sflow-type-filter given twice (%v): effective filter %v holds entries nobody listed", c.Filter, gotF)
+		}
 		return v, "", nil
 	}
 	if len(gotF) != len(c.Filter) {
